@@ -38,6 +38,7 @@ Inductive rerr :=
 Inductive ev :=
 | EXfer (x : xfer)                          (* a transfer frame from the peer *)
 | ERecv                                     (* the application calls recv() *)
+| ECancelRecv                               (* the pending recv() future is dropped *)
 | ECredit (n : N) | EDrain                  (* set_credit / drain *)
 | EPFlow (dc : option N) (echo : bool)      (* a link flow from the peer (sender) *)
 | EAccept (newest : bool)                   (* accept the oldest / the newest delivery held *)
@@ -305,6 +306,7 @@ Definition rstep (s : rstate) (e : ev) : rstate * list obs :=
         let s1 := mkR (r_mode s) (r_second s) (r_credit s) (r_dc s) (r_drain s) (r_processed s) (r_inc s)
                       (r_queue s) true (r_held s) (r_unsettled s) (r_reg s) in
         pump (fuel_of s1) s1
+  | ECancelRecv => (stop_waiting s, [])        (* everything recv() had worked on lives in the link, not in the future *)
   | ECredit n =>
       let s1 := mkR (match r_mode s with Auto _ => Auto n | Manual => Manual end) (r_second s) (r_credit s) (r_dc s)
                     (r_drain s) 0 (r_inc s) (r_queue s) (r_waiting s) (r_held s) (r_unsettled s) (r_reg s) in
